@@ -990,3 +990,202 @@ func runHeaderReadCancellable(c *Ctx) {
 		c.Bad("header-read/none", target.Pos(), "nothing calls readControlHeader")
 	}
 }
+
+// ---------------------------------------------------------------------------
+// F74
+
+func init() {
+	Register(&Rule{
+		Name:  "R-UNCONFIRMED-NOT-CLAIMED",
+		Props: []string{"C06", "C05"},
+		Min:   3,
+		Doc: "the chunk handed to the sender for comparison is not claimed on disk until its verdict is known (F74): (report) in the receiver's resume report every path from the assignment of LastVerifiedHash to the successful return passes Sidecar.MarkUnconfirmed on the chunk that was reported; " +
+			"(flush) Sidecar.Flush clears that chunk's bit in the copy of the bitmap it writes, under the reservation flag, before the bitmap's bytes go into the file image; (release) Sidecar.Confirm is called only where the file was finalised successfully - " +
+			"the repair of a damaged chunk travels on one of several data streams, the chunks behind it on the others: a receive cut off in between left the damaged chunk marked and no longer the highest, and the next resume skipped it unseen",
+		Run: runUnconfirmedNotClaimed,
+	})
+}
+
+func runUnconfirmedNotClaimed(c *Ctx) {
+	p := c.P
+	mark := p.Func("transfer.(*Sidecar).MarkUnconfirmed")
+	confirm := p.Func("transfer.(*Sidecar).Confirm")
+	flush := p.Func("transfer.(*Sidecar).Flush")
+	recv := p.Func("transfer.RecvManifestMultiStream")
+	if mark == nil || confirm == nil || flush == nil || recv == nil {
+		c.MissingAnchor("transfer.(*Sidecar).MarkUnconfirmed / Confirm / Flush, transfer.RecvManifestMultiStream")
+		return
+	}
+	// (report)
+	nr := 0
+	for _, f := range allKids(recv) {
+		if f.Lit == nil {
+			continue
+		}
+		info := f.Info()
+		g := f.CFG()
+		g.EachNode(func(r NodeRef) {
+			as, ok := r.Node().(*ast.AssignStmt)
+			if !ok || len(as.Lhs) != 1 {
+				return
+			}
+			sel, ok := ast.Unparen(as.Lhs[0]).(*ast.SelectorExpr)
+			if !ok || sel.Sel.Name != "LastVerifiedHash" {
+				return
+			}
+			nr++
+			// the chunk reported: the definition of LastVerifiedChunk in the same function
+			var chunkObj types.Object
+			InspectNoLits(f.Body, func(m ast.Node) bool {
+				a2, ok := m.(*ast.AssignStmt)
+				if !ok || len(a2.Lhs) != 1 || len(a2.Rhs) != 1 {
+					return true
+				}
+				if s2, ok := ast.Unparen(a2.Lhs[0]).(*ast.SelectorExpr); ok && s2.Sel.Name == "LastVerifiedChunk" {
+					if o := rootObj(info, a2.Rhs[0]); o != nil {
+						if _, isVar := o.(*types.Var); isVar && !strings.HasSuffix(types.ExprString(a2.Rhs[0]), "totalChunks") {
+							chunkObj = o
+						}
+					}
+				}
+				return true
+			})
+			marks := func(nd ast.Node) bool {
+				hit := false
+				InspectNoLits(nd, func(x ast.Node) bool {
+					if call, ok := x.(*ast.CallExpr); ok && p.CalleeInfo(info, call) == mark && len(call.Args) == 1 {
+						if chunkObj == nil || rootObj(info, call.Args[0]) == chunkObj {
+							hit = true
+						}
+					}
+					return true
+				})
+				return hit
+			}
+			// every path from here to a `return <info>, nil`
+			okAll := true
+			seen := map[NodeRef]bool{}
+			var walk func(ref NodeRef)
+			walk = func(ref NodeRef) {
+				if !okAll || seen[ref] {
+					return
+				}
+				seen[ref] = true
+				b := ref.B
+				for i := ref.I; i < len(b.Nodes); i++ {
+					nd := b.Nodes[i]
+					if marks(nd) {
+						return
+					}
+					if rs, ok := nd.(*ast.ReturnStmt); ok {
+						if n := len(rs.Results); n >= 1 && types.ExprString(rs.Results[n-1]) == "nil" {
+							okAll = false
+						}
+						return
+					}
+				}
+				for _, s := range b.Succs {
+					if s.Live {
+						walk(NodeRef{s, 0})
+					}
+				}
+			}
+			walk(NodeRef{r.B, r.I + 1})
+			c.Check(okAll, fmt.Sprintf("unconfirmed/report/%s#%d", f.Name, nr), as.Pos(), "the chunk whose hash is reported is marked unconfirmed before the report is returned",
+				f.Name+" reports the hash of its highest complete chunk and can return without Sidecar.MarkUnconfirmed on that chunk: the sender sends the chunk again when it is damaged, on one of several data streams - "+
+					"chunks behind it arrive on the others and are recorded; a receive cut off before the repair was written leaves the damaged chunk marked and no longer the highest, and the next resume skips it unseen")
+		})
+	}
+	if nr == 0 {
+		c.Bad("unconfirmed/report/none", recv.Pos(), "found no assignment of LastVerifiedHash in the closures of RecvManifestMultiStream")
+	}
+	// (flush)
+	{
+		info := flush.Info()
+		var marshalled types.Object
+		var marshalPos token.Pos
+		InspectNoLits(flush.Body, func(m ast.Node) bool {
+			as, ok := m.(*ast.AssignStmt)
+			if !ok || len(as.Lhs) != 1 || len(as.Rhs) != 1 {
+				return true
+			}
+			if call, ok := ast.Unparen(as.Rhs[0]).(*ast.CallExpr); ok {
+				if sel, ok := ast.Unparen(call.Fun).(*ast.SelectorExpr); ok && sel.Sel.Name == "Marshal" {
+					marshalled, marshalPos = ObjOf(info, as.Lhs[0]), as.Pos()
+				}
+			}
+			return true
+		})
+		cleared, clearPos := false, token.NoPos
+		InspectNoLits(flush.Body, func(m ast.Node) bool {
+			as, ok := m.(*ast.AssignStmt)
+			if !ok || as.Tok != token.AND_NOT_ASSIGN || len(as.Lhs) != 1 {
+				return true
+			}
+			ix, ok := ast.Unparen(as.Lhs[0]).(*ast.IndexExpr)
+			if !ok || marshalled == nil || ObjOf(info, ix.X) != marshalled {
+				return true
+			}
+			// under the reservation flag, on the unconfirmed index
+			flagged := false
+			for _, is := range enclosingIfs(flush.Body, as) {
+				if strings.Contains(types.ExprString(is.Cond), "hasUnconfirmed") {
+					flagged = true
+				}
+			}
+			if flagged && strings.Contains(types.ExprString(ix.Index), "unconfirmed") && strings.Contains(types.ExprString(as.Rhs[0]), "unconfirmed") {
+				cleared, clearPos = true, as.Pos()
+			}
+			return true
+		})
+		// before the bitmap's bytes are written into the image
+		before := cleared
+		if cleared {
+			InspectNoLits(flush.Body, func(m ast.Node) bool {
+				if call, ok := m.(*ast.CallExpr); ok && call.Pos() > marshalPos && call.Pos() < clearPos {
+					for _, a := range call.Args {
+						if marshalled != nil && rootObj(info, a) == marshalled {
+							if id, ok := ast.Unparen(call.Fun).(*ast.Ident); !(ok && id.Name == "len") {
+								before = false
+							}
+						}
+					}
+				}
+				return true
+			})
+		}
+		c.Check(cleared && before, "unconfirmed/flush", flush.Pos(), "Flush clears the unconfirmed chunk's bit in the copy it writes, before the copy is used",
+			"Sidecar.Flush writes the bitmap with the bit of the chunk that is under comparison still set (no `copy[i/8] &^= 1 << (i%8)` under hasUnconfirmed in front of the write): the metadata on disk go on claiming a chunk the sender may be about to replace")
+	}
+	// (release)
+	nc := 0
+	for _, f := range p.FuncsIn("internal/transfer") {
+		if f.Body == nil || strings.HasSuffix(p.Fset.Position(f.Pos()).Filename, "_test.go") {
+			continue
+		}
+		info := f.Info()
+		InspectNoLits(f.Body, func(m ast.Node) bool {
+			call, ok := m.(*ast.CallExpr)
+			if !ok || p.CalleeInfo(info, call) != confirm {
+				return true
+			}
+			nc++
+			guarded := false
+			for _, is := range enclosingIfs(f.Body, call) {
+				for _, a := range Implied(is.Cond, true) {
+					if id, ok := ast.Unparen(a.E).(*ast.Ident); ok && a.Val {
+						if t := info.TypeOf(id); t != nil && isBool(t) && (id.Name == "ok" || strings.Contains(strings.ToLower(id.Name), "ok") || strings.Contains(strings.ToLower(id.Name), "success")) {
+							guarded = true
+						}
+					}
+				}
+			}
+			c.Check(guarded, fmt.Sprintf("unconfirmed/release/%s#%d", f.Name, nc), call.Pos(), "the reservation ends only when the file was finalised successfully",
+				"Sidecar.Confirm is called on a path that is not the successful finalisation of the file: the chunk under comparison is claimed on disk again although neither its repair nor the end of the file has arrived")
+			return true
+		})
+	}
+	if nc == 0 {
+		c.Bad("unconfirmed/release/none", confirm.Pos(), "nothing calls Sidecar.Confirm: the chunk under comparison would stay unclaimed after a completed file")
+	}
+}
